@@ -55,6 +55,44 @@ def bit_expected(data, pvd_sector, file_sector):
     return struct.pack('<LLLL', pvd_sector, file_sector, len(data), csum) + b'\0' * 40
 
 
+def live_boot_reads(run, failures):
+    """Before mastering: every name of a boot file, and the stream interface, must read the same bytes on the live object
+    (a boot info table is part of what the file reads as).  Returns {blob id: bytes} for the comparison with the written image."""
+    m = run.model
+    out = {}
+    if m.boot is None:
+        return out
+    seen = set()
+    for ent in m.boot['entries']:
+        b = m.blobs.get(ent['blob'])
+        if b is None or b.id in seen or not b.names or b.length > (1 << 20):
+            continue
+        seen.add(b.id)
+        reads = {}
+        for ns, p in sorted(b.names):
+            key = {'iso': 'iso_path', 'jol': 'joliet_path', 'udf': 'udf_path'}[ns]
+            try:
+                o = io.BytesIO()
+                run.iso.get_file_from_iso_fp(o, **{key: p})
+                reads['%s' % ns] = o.getvalue()
+                with run.iso.open_file_from_iso(**{key: p}) as f:
+                    reads['%s-stream' % ns] = f.read()
+            except Exception as e:  # noqa
+                failures.append(('C11/live-read/%s' % exc_signature(e), 'boot-info-table', 'reading boot file %r on the live object (%s) raised %r' % (p[:50], ns, e)))
+                return out
+        vals = sorted(set(reads.values()), key=len)
+        if len(vals) > 1:
+            ks = sorted(reads)
+            first = ks[0]
+            other = next(k for k in ks if reads[k] != reads[first])
+            failures.append(('C11/live-read/names-disagree/%s-vs-%s%s' % (first, other, '/boot-info-table' if b.bit else ''), 'boot-info-table',
+                             'before mastering, boot file blob %d reads %d bytes through %s and %d different bytes through %s (bytes 8..24: %s vs %s)'
+                             % (b.id, len(reads[first]), first, len(reads[other]), other, reads[first][8:24].hex(), reads[other][8:24].hex())))
+        out[b.id] = reads[sorted(reads)[0]]
+    run.stats['live_boot_reads'] = run.stats.get('live_boot_reads', 0) + len(out)
+    return out
+
+
 def oracle(program, blocksize):
     shim.install('UTC')
     blocksize = blocksize or 8192
@@ -63,6 +101,7 @@ def oracle(program, blocksize):
     run = Run(program)
     run.run_all()
     run.stats = {'c01_domain': 0}
+    live = live_boot_reads(run, failures) if not (run.dead or run.problems) else {}
     img = None if (run.dead or run.problems) else run.write()
     if img is None:
         run.stats['c01_domain'] += 1
